@@ -35,19 +35,32 @@ def h_scale(ctx, case):
     """convert_to_cpm(k*x) == convert_to_cpm(x); raw -> normalise equals
     supplying log2(CPM+1) and declaring it normalised"""
     ng = case['genes']
-    x = reals(ctx, 'x', (1, ng), 0, None)
-    k = ctx.real('k', 0, None, lo_strict=True)
+    xdt = case.get('x_dtype')
+    if xdt is not None:
+        # raw counts stored in a (narrow) integer type: any value of its
+        # range, modelled as a real in that range (a witness is replayed
+        # with its values truncated to integers); scale 1
+        info = np.iinfo(np.dtype(xdt))
+        x = reals(ctx, 'x', (1, ng), max(0, int(info.min)), int(info.max))
+        if ctx.mode != 'sym':
+            x = np.array([[float(int(v)) for v in row] for row in x])
+        k = 1
+    else:
+        x = reals(ctx, 'x', (1, ng), 0, None)
+        k = ctx.real('k', 0, None, lo_strict=True)
+    dkw = {'dtype': np.dtype(xdt)} if xdt else {}
     genes = [f"g{i}" for i in range(ng)]
     keep = [genes[i] for i in ctx.subset('markers', ng)]
     if not keep:
         raise core.PathAbort('no marker')
     try:
-        c1 = CBGU.convert_to_cpm(arr(ctx, x))
-        c2 = CBGU.convert_to_cpm(arr(ctx, x * k))
-        m_raw = CellByGeneMatrix(arr(ctx, x), list(genes), 'raw')
+        c1 = CBGU.convert_to_cpm(arr(ctx, x, **dkw))
+        c2 = CBGU.convert_to_cpm(arr(ctx, x * k, **dkw))
+        m_raw = CellByGeneMatrix(arr(ctx, x, **dkw), list(genes), 'raw')
         m_raw.to_log2CPM_in_place()
         m_raw.downsample_genes_in_place(keep)
-        m_scaled = CellByGeneMatrix(arr(ctx, x * k), list(genes), 'raw')
+        m_scaled = CellByGeneMatrix(arr(ctx, x * k, **dkw), list(genes),
+                                    'raw')
         m_scaled.to_log2CPM_in_place()
         m_scaled.downsample_genes_in_place(keep)
     except Exception as e:
@@ -208,9 +221,12 @@ def h_negative(ctx, case):
 
 HARNESSES = [
     Harness('scale_and_declared_normalisation', h_scale, setup=setup_norm,
-            cases=[{'genes': 2}, {'genes': 3}],
+            cases=[{'genes': 2}, {'genes': 3},
+                   {'genes': 2, 'x_dtype': 'int32'},
+                   {'genes': 2, 'x_dtype': 'uint16'}],
             thorough_cases=[{'genes': 2}, {'genes': 3}, {'genes': 4},
-                            {'genes': 5}],
+                            {'genes': 5}, {'genes': 3, 'x_dtype': 'uint32'},
+                            {'genes': 3, 'x_dtype': 'int16'}],
             funcs=['cell_by_gene.utils.convert_to_cpm',
                    'CellByGeneMatrix.to_log2CPM_in_place',
                    'downsample_genes_in_place'],
@@ -238,6 +254,8 @@ HARNESSES = [
             cases=[{'shape': [2, 2], 'enc': e} for e in
                    ('dense', 'csr', 'csc')]
             + [{'shape': [2, 2], 'enc': 'dense', 'chunks': [1, 1]},
+               {'shape': [2, 2], 'enc': 'dense', 'chunks': [2, 1]},
+               {'shape': [2, 2], 'enc': 'dense', 'chunks': [1, 2]},
                {'shape': [2, 2], 'enc': 'csr', 'chunks': [1]}],
             thorough_cases=[{'shape': [2, 2], 'enc': e} for e in
                             ('dense', 'csr', 'csc')]
